@@ -42,16 +42,20 @@ Fixpoint copy_attrs (attrs : list (string * attr)) (next : Z) : list (string * a
 Section Reindex.
   Variable pd_get_loc : list label -> label -> outcome loc.
   Variable pd_contains : list label -> label -> bool.
-  (* bool(value) / int(value) / str(value) as the dtype demands, then np.full(n, value, dtype) *)
-  Variable cast : dtype -> pyval -> outcome cell.
+  (* bool(value) / int(value) / str(value) as the dtype demands, then np.full(n, value, dtype):
+     `cast n dt v` = the element every position of that array holds, or the exception raised on the way.
+     The length n is an argument because NumPy converts the fill value to an element only when there is an
+     element to fill: np.full(0, 'ab', dtype=float) is an empty array, np.full(1, 'ab', dtype=float) raises
+     ValueError (for n = 0 the cell returned is never stored: repeat c 0 = []). *)
+  Variable cast : nat -> dtype -> pyval -> outcome cell.
 
   (* lines 714-740: the dtype-aware default for None, otherwise the conversion *)
-  Definition fill_cell (dt : dtype) (v : pyval) : outcome cell :=
+  Definition fill_cell (n : nat) (dt : dtype) (v : pyval) : outcome cell :=
     match v, dt with
     | PNone, DBool => Ret (CB false)
     | PNone, DInt => Ret (CI 0)
     | PNone, DStr _ => Ret (CS "")
-    | _, _ => cast dt v
+    | _, _ => cast n dt v
     end.
 
   (* lines 694-697: positions[i] = locate(period) for the periods of the new span found in the old one *)
@@ -84,7 +88,7 @@ Section Reindex.
     match vars with
     | [] => Ret []
     | (name, sr) :: r =>
-        bind (fill_cell (s_dtype sr) (fill_for fills fv name)) (fun c =>
+        bind (fill_cell n (s_dtype sr) (fill_for fills fv name)) (fun c =>
         bind (copy_over (repeat c n) positions (s_data sr)) (fun d =>
         bind (reindex_vars n positions fills fv r (next + 1)) (fun r' =>
         Ret ((name, mkSeries (s_dtype sr) next d) :: r'))))
@@ -112,8 +116,9 @@ Section Reindex.
     reindex_M st new_span new_span_id fill_value strict (with_model_defaults fills) fresh.
 
   (* ---- PandasIndexFeaturesMixin.reindex ---- *)
-  (* Series(self[name], index=self.span).reindex(index=span, method=m, fill_value=v).values *)
-  Variable series_reindex : span -> list cell -> span -> option string -> pyval -> outcome (list cell).
+  (* Series(self[name], index=self.span).reindex(index=span, method=m, fill_value=v).values
+     (arguments: old span, dtype and data of self[name], new span, method, fill value) *)
+  Variable series_reindex : span -> dtype -> list cell -> span -> option string -> pyval -> outcome (list cell).
   (* reindexed[name] = values  ->  arr[:] = values, cast to the series' dtype *)
   Variable assign_cast : dtype -> list cell -> outcome (list cell).
 
@@ -132,7 +137,7 @@ Section Reindex.
     | name :: rest =>
         match lookup name (c_vars orig), lookup name (c_vars r) with
         | Some so, Some sn =>
-            bind (series_reindex (c_span orig) (s_data so) new_span (mf name) (fill_for fills fv name)) (fun vals =>
+            bind (series_reindex (c_span orig) (s_dtype so) (s_data so) new_span (mf name) (fill_for fills fv name)) (fun vals =>
             bind (assign_cast (s_dtype sn) vals) (fun d =>
             pandas_loop orig new_span mf fills fv rest (set_data r name sn d)))
         | _, _ => Raise KeyError
@@ -195,7 +200,7 @@ Definition py_str (v : pyval) : string :=
 Definition truncate (w : nat) (s : string) : string := substring 0 w s.
 Definition int64_ok (z : Z) : bool := (- 9223372036854775808 <=? z) && (z <=? 9223372036854775807).
 
-Definition cast_tbl (dt : dtype) (v : pyval) : outcome cell :=
+Definition cast_tbl (n : nat) (dt : dtype) (v : pyval) : outcome cell :=
   match dt with
   | DBool => Ret (CB (py_truthy v))
   | DInt =>
@@ -215,7 +220,10 @@ Definition cast_tbl (dt : dtype) (v : pyval) : outcome cell :=
       | PBool b => Ret (CF (FNum (if b then 2 else 0)))
       | PInt z => Ret (CF (FNum (2 * z)))
       | PFlt f => Ret (CF f)
-      | PStr s => match int_of_str s with Some z => Ret (CF (FNum (2 * z))) | None => Raise ValueError end
+      | PStr s => match int_of_str s with
+                  | Some z => Ret (CF (FNum (2 * z)))
+                  | None => match n with O => Ret (CF FNan) | S _ => Raise ValueError end   (* no element, no conversion *)
+                  end
       end
   | DObj => Ret (CV v)
   end.
